@@ -20,6 +20,8 @@ C == Cases[ci]
 Finite == st = "recorded" /\ ~C.hang /\ C.crash = "" /\ Len(C.toks) > 0 /\ C.toks[Len(C.toks)].tok = C.eoi /\ st' = "done" /\ UNCHANGED <<blk, ci>>
 Next == Pick \/ Finite \/ (st = "done" /\ UNCHANGED vars)
 Spec == Init /\ [][Next]_vars
+(* a hang, a panic or a run that does not end in EOI has no transition; stated over ENABLED so that every case is reported *)
+FiniteRun == st = "recorded" => ENABLED Finite
 Done == st = "done"
 N == Len(C.toks)
 (* end-of-input sits at the end of the input and repeats there *)
